@@ -1,8 +1,60 @@
-(* C03 — distributor books always match the coins it holds (mechanism-level theorems, pointwise per
-   denomination; the block-level composition is checked on every run against the implementation's
-   own registered invariants and a conservation equation). *)
-From C4E Require Import Base Minter Distributor DistrCoins DistrProofs.
+(* C03 — distributor books always match the coins it holds: block- and history-level theorems first,
+   then the mechanism-level laws they are assembled from (pointwise per denomination). *)
+From C4E Require Import Base Minter Distributor DistrCoins DistrProofs Books Params BooksValid.
 Open Scope Z_scope.
+
+(* THE property over whole histories.  [winv] collects what holds of every reachable distributor world:
+   well-formed non-negative remains and balances, states stored in key order under the key of their
+   account, a configuration whose shares are fractions adding up to at most 1, in which MAIN — when it
+   is a source — is the first source of its sub-distributor (not K1) and no source or destination is
+   the main account under another name (not K2), and books not exceeding the main balance.
+   [booked_after false subs = true] is what validation's "the last occurrence of MAIN is a source"
+   gives.  Then for every sequence of inflows (any non-negative coins to any account) and blocks (with
+   ANY pattern of failing bank calls): no block panics, and after every block the sum of all recorded
+   remains equals the main account's balance, per denomination. *)
+Theorem C03_books_equal_balance_after_every_block :
+  forall (bk : Z) (Known : dacct -> Prop),
+  (forall a, Known a -> da_key a <> bk) ->
+  (forall a a', Known a -> Known a' -> da_key a = da_key a' -> da_id a = da_id a') ->
+  forall ops w, winv bk Known w -> booked_after false (dw_subs w) = true -> Forall good_op ops ->
+  books_after_every_block w ops.
+Proof. exact history_keeps_books. Qed.
+Print Assumptions C03_books_equal_balance_after_every_block.
+
+(* the configuration hypotheses are what validation gives: every configuration accepted by
+   Params.Validate (Params.dparams_valid: SubDistributor.Validate + ValidateSubDistributors +
+   validateLastOccurrence) whose sources are in order (not K1) has share fractions in range and, because
+   validation demands that the last occurrence of MAIN is a source, the whole main balance booked at the
+   end of every block *)
+Theorem C03_validated_configuration_books_everything :
+  forall l, dparams_valid l = true ->
+  Forall (fun s => sd_uids_ok (ps_sd s)) l ->
+  Forall (fun s => sources_in_order (sd_sources (ps_sd s))) l ->
+  Forall sd_shares_ok (map ps_sd l) /\ booked_after false (map ps_sd l) = true.
+Proof. exact valid_config_books. Qed.
+Print Assumptions C03_validated_configuration_books_everything.
+
+(* one block: never panics, keeps the invariant (books never exceed the balance, even when MAIN is a
+   later primary destination), whatever fails *)
+Theorem C03_block_keeps_the_books :
+  forall (bk : Z) (Known : dacct -> Prop),
+  (forall a, Known a -> da_key a <> bk) ->
+  (forall a a', Known a -> Known a' -> da_key a = da_key a' -> da_id a = da_id a') ->
+  forall w faults, winv bk Known w ->
+  exists w' evs n, dist_begin_block w faults = Ok (w', evs, n) /\ winv bk Known w' /\ dw_subs w' = dw_subs w /\
+    (booked_after false (dw_subs w) = true -> Books w').
+Proof. exact block_keeps_books. Qed.
+Print Assumptions C03_block_keeps_the_books.
+
+(* inside the block, per sub-distributor: what its sources contribute raises the unbooked part of the
+   main balance by exactly the inflow (a MAIN source takes exactly the unbooked part), and
+   StartDistributionProcess books exactly the inflow except what a MAIN primary leaves unbooked *)
+Theorem C03_sources_raise_unbooked_by_the_inflow :
+  forall srcs sts b, inv sts b -> sources_in_order srcs -> (forall d, 0 <= unbooked sts b d) ->
+  exists c sts' b', prepare_all srcs sts b [] = Ok (c, sts', b') /\ inv sts' b' /\ dc_wf c /\ (forall d, 0 <= dc_amt d c) /\
+    forall d, unbooked sts' b' d = (if main_is_source srcs then 0 else unbooked sts b d) + dc_amt d c.
+Proof. exact prepare_all_books. Qed.
+Print Assumptions C03_sources_raise_unbooked_by_the_inflow.
 
 (* MAIN source: the inflow is exactly the main account's balance minus the sum of all recorded
    remains (never negative when the call does not panic) — so after booking it, books = balance *)
@@ -103,3 +155,36 @@ Example C03_example :
       | _ => False end
   | _ => False end.
 Proof. vm_compute. repeat split. Qed.
+
+(* non-vacuity of the history theorem: the example world satisfies the invariant *)
+Definition ex_known (a : dacct) : Prop := da_key a = da_id a /\ 1 <= da_key a <= 3.
+Example C03_example_world_satisfies_invariant : winv 9 ex_known ex_dworld /\ booked_after false (dw_subs ex_dworld) = true.
+Proof.
+  split; [|reflexivity]. constructor; cbn [ex_dworld dw_states dw_subs dw_bal dw_burned dw_burnkey].
+  - constructor; cbn [bank_of bk_bal bk_burned dw_bal dw_burned]; try constructor.
+    + intros a. unfold bal_of. cbn. destruct (a =? 0); cbn; [split; [lia | exact I] | exact I].
+    + intros a d. unfold bal_of. cbn. destruct (a =? 0); cbn; [destruct (d =? 0)|]; lia.
+  - constructor.
+  - constructor.
+  - exact I.
+  - reflexivity.
+  - assert (Hsh : forall sd, sd_burn sd >= 0 -> Forall (fun sh => 0 <= sh_share sh) (sd_shares sd) ->
+                  shares_total (sd_shares sd) + sd_burn sd <= P -> sd_shares_ok sd).
+    { intros sd H1 H2 H3. unfold sd_shares_ok, shares_ok. split; [exact H2|]. split; [lia | exact H3]. }
+    split.
+    + apply Forall_cons; [|apply Forall_cons; [|apply Forall_nil]].
+      * split; [cbn; split; [left; reflexivity | constructor]|]. apply Hsh; cbn [sd_burn sd_shares]; [lia | apply Forall_cons; [cbn [sh_share]; lia | apply Forall_nil] | unfold shares_total; cbn [map zsum sh_share]; unfold P; lia].
+      * split; [cbn; split; [|constructor]; right; split; [discriminate|]; intros H; exfalso; apply H; reflexivity|].
+        apply Hsh; cbn [sd_burn sd_shares]; [lia | apply Forall_nil | unfold shares_total; cbn [map zsum]; unfold P; lia].
+    + apply Forall_cons; [|apply Forall_cons; [|apply Forall_nil]]; split; cbn.
+      * constructor; [|constructor]. cbn. intros _ _ H; exfalso; apply H; reflexivity.
+      * intros _ _ _. discriminate.
+      * constructor.
+      * intros _ _ _. discriminate.
+  - apply Forall_cons; [|apply Forall_cons; [|apply Forall_nil]]; split; cbn.
+    + constructor; [|constructor]. cbn. intros _. unfold ex_known; cbn. lia.
+    + intros _. unfold ex_known; cbn. lia.
+    + constructor.
+    + intros _. unfold ex_known; cbn. lia.
+  - intros d. unfold wunbooked, unbooked, mainbal, bank_of, bal_of. cbn. destruct (d =? 0); cbn; lia.
+Qed.
